@@ -143,4 +143,14 @@ theorem C12_wiring2 :
     Sso.Generated.skel_proxy_upstreamTransport_RoundTrip =
       ["call:getTransport", "call:RoundTrip", "if{", "return", "}", "return"] := by decide
 
+/-- Tie (T1), third wave: the constructors and option functions that hand configured values to the components this property
+speaks about (proxy_SetRequestSigner, signer_NewRequestSigner, signer_PublicKey). -/
+theorem C12_wiring3 :
+    Sso.Generated.skel_proxy_SetRequestSigner =
+      ["func{", "if{", "return", "}", "call:make", "call:PublicKey", "store:certs[]", "call:MarshalIndent", "if{", "call:Errorf", "return", "}", "store:op.requestSigner", "store:op.publicCertsJSON", "return", "}", "return"] ∧
+    Sso.Generated.skel_signer_NewRequestSigner =
+      ["call:?", "call:Decode", "if{", "call:Errorf", "return", "}", "call:ParsePKCS8PrivateKey", "if{", "call:Errorf", "return", "}", "call:Public", "if{", "call:Errorf", "return", "}", "call:MarshalPKCS1PublicKey", "call:EncodeToMemory", "call:New", "call:Write", "call:Sum", "func{", "call:New", "return", "}", "call:string", "call:EncodeToString", "return"] ∧
+    Sso.Generated.skel_signer_PublicKey =
+      ["return"] := by decide
+
 end Sso.Forward
